@@ -108,6 +108,11 @@ def cases(tier, seed):
     for k in range(48 if tier == 'quick' else 400):
         yield {'t': 'durability', 'numtype': DTYPES[k % len(DTYPES)], 'bo': gens.BO[k % 2],
                'fate': ['overwrite', 'truncate', 'delete', 'recreate'][k % 4], 'k': k}
+    # the length of the array changes INSIDE an open context of the same object; indexing inside and outside must agree
+    for k in range(60 if tier == 'quick' else 600):
+        yield {'t': 'resize', 'numtype': DTYPES[k % len(DTYPES)], 'bo': gens.BO[k % 2], 'k': k,
+               'shape': list([(6,), (5, 2), (3000,), (4, 1, 2)][k % 4]), 'ops': [['trunc', 'app', 'trunc0', 'app'], ['app', 'trunc'],
+                                                                                  ['trunc', 'trunc', 'app'], ['trunc0', 'app', 'app']][(k // 4) % 4]}
     # reads and assignments through a handle whose array was changed by other means (path / second handle / re-creation
     # with the same byte size but another type or shape)
     for c in hist_stale.array_cases(random.Random(f'C12:{seed}:stale'), 300 if tier == 'quick' else 4000, seed,
@@ -143,9 +148,83 @@ def run_case(case, env):
         return run_durability(case, env, Result())
     if case['t'] == 'stale':
         return run_case_forked(env, case, run_stale, what=f'stale-handle sequence {case}')
+    if case['t'] == 'resize':
+        return run_case_forked(env, case, run_resize, what=f'resize-inside-context sequence {case}')
     # every access sequence runs in its own forked child: a result that still points into an unmapped
     # file kills the child, which is then the observation (not the death of the worker)
     return run_case_forked(env, case, run_sequence, what=f'access sequence {case}')
+
+
+def run_resize(case, env):
+    res = Result()
+    D = env.darr
+    rng = env.rng('resize', case['k'])
+    dtype = gens.dt(case['numtype'], case['bo'])
+    shape = tuple(case['shape'])
+    d = env.scratch.new('z')
+    try:
+        path = d / 'a'
+        ref = gens.distinct_values(rng, dtype, shape)
+        a = D.asarray(path, ref.copy(), accessmode='r+', chunklen=3)
+
+        def compare(where, step):
+            views = {'a[:]': lambda: a[:], 'a[-1]': lambda: a[-1], 'a[::2]': lambda: a[::2], 'a[len-1:]': lambda: a[len(a) - 1:]}
+            for name, f in views.items():
+                try:
+                    want = ('ok', np.array({'a[:]': lambda: ref[:], 'a[-1]': lambda: ref[-1], 'a[::2]': lambda: ref[::2],
+                                            'a[len-1:]': lambda: ref[ref.shape[0] - 1:]}[name]()))
+                except IndexError:
+                    want = ('IndexError',)
+                try:
+                    got = ('ok', np.asarray(f()))
+                except IndexError:
+                    got = ('IndexError',)
+                res.count('mon.read_vs_numpy')
+                if got[0] != want[0] or (got[0] == 'ok' and not bits_equal(got[1], want[1])):
+                    res.fail(f'resize-in-context:{where}-read-differs:{step}',
+                             f'after {step} inside open_array(): {name} {where} the context gives '
+                             f'{describe(got[1]) if got[0] == "ok" else got[0]}, NumPy model {describe(want[1]) if want[0] == "ok" else want[0]}',
+                             **case)
+                    return False
+            return True
+
+        with a.open_array():
+            for i, op in enumerate(case['ops']):
+                n = ref.shape[0]
+                if op == 'app':
+                    rows = gens.distinct_values(rng, dtype, (2,) + shape[1:])
+                    a.append(rows)
+                    ref = np.concatenate([ref, rows]).astype(dtype)
+                else:
+                    if n == 0:
+                        continue
+                    k = 0 if op == 'trunc0' else n // 2
+                    D.truncate_array(a, k)
+                    ref = ref[:k].copy()
+                res.count('mon.inside_eq_outside')
+                if not compare('inside', op):
+                    return res
+                if ref.shape[0]:
+                    v = gens.distinct_values(rng, dtype, shape[1:])
+                    a[-1] = v
+                    ref[-1] = v
+                    res.count('mon.assign_vs_numpy')
+        if compare('outside', 'exit'):
+            raw = np.frombuffer((path / 'arrayvalues.bin').read_bytes(), dtype=dtype).reshape(ref.shape)
+            fresh = D.Array(path)[:]
+            if not bits_equal(np.ascontiguousarray(raw), ref) or not bits_equal(fresh, ref):
+                res.fail('resize-in-context:assignment-not-durable', f'after the context the raw file / a fresh handle hold '
+                                                                     f'{describe(fresh)}, NumPy model {describe(ref)}', **case)
+        res.count('mon.fdmap')
+        leak = fdmap(path)
+        if leak:
+            res.fail('resize-in-context:fd-or-map-left-open', str(leak), **case)
+        res.nontrivial = True
+        res.sig = repr(('resize', case['numtype'], case['bo'], shape, tuple(case['ops'])))
+        res.dim('sequence', 'resize-inside-context')
+        return res
+    finally:
+        env.scratch.drop(d)
 
 
 def run_stale(case, env):
